@@ -15,11 +15,12 @@
 struct halg {
         const char *name;
         size_t mgr_size, ctx_size;
+        unsigned mgr_align, ctx_align;
         size_t o_status, o_error, o_total, o_pblen, o_ud, o_dig;
         int wbytes, nwords, block, words_native; /* words_native: digest words are native ints -> print BE */
 };
 #define DEF(name, CTX, MGR, W, NW, BLK, NATIVE)                                                                \
-        { #name, sizeof(MGR), sizeof(CTX), offsetof(CTX, status), offsetof(CTX, error),                         \
+        { #name, sizeof(MGR), sizeof(CTX), (unsigned) _Alignof(MGR), (unsigned) _Alignof(CTX), offsetof(CTX, status), offsetof(CTX, error),                         \
           offsetof(CTX, total_length), offsetof(CTX, partial_block_buffer_length), offsetof(CTX, user_data),    \
           offsetof(CTX, job.result_digest), W, NW, BLK, NATIVE }
 static const struct halg algs[] = {
@@ -203,12 +204,12 @@ do_mgr(const cmd *c)
         f_flush = sym_lookup(nm);
         if (!f_init || !f_submit || !f_flush)
                 die("no entry points for %s/%s", alg, fam);
-        gbuf_alloc(&mgr_g, A->mgr_size, PL_MID, 0);
+        gbuf_alloc_obj(&mgr_g, A->mgr_size, A->mgr_align < 16 ? 16 : A->mgr_align); /* every test and example of the repository allocates managers with posix_memalign(.., 16, ..) */
         hidden_fill(mgr_g.p, A->mgr_size, 11);
         gbuf_alloc(&outp_g, 8, PL_MID, 8);
         mgr_before = malloc(A->mgr_size);
         for (int i = 0; i < nctx; i++) {
-                gbuf_alloc(&ctx_g[i], A->ctx_size, PL_MID, 0);
+                gbuf_alloc_obj(&ctx_g[i], A->ctx_size, A->ctx_align);
                 hidden_fill(ctx_g[i].p, A->ctx_size, 100 + (uint32_t) i);
                 CTXF(i, A->o_error, int32_t) = ISAL_HASH_CTX_ERROR_NONE; /* isal_hash_ctx_init */
                 CTXF(i, A->o_status, uint32_t) = ISAL_HASH_CTX_STS_COMPLETE;
@@ -250,7 +251,9 @@ do_sub(const cmd *c)
         uint64_t off = (uint64_t) cmd_i(c, 4), len = (uint64_t) cmd_i(c, 5);
         int place;
         unsigned align;
-        if (gbuf_parse_place(c->t[6], &place, &align))
+        /* placement "n": an empty piece handed over as (NULL, 0) - legal for the un-prefixed and per-family entry points */
+        int nullptr0 = !strcmp(c->t[6], "n") && len == 0 && !style;
+        if (gbuf_parse_place(nullptr0 || !strcmp(c->t[6], "n") ? "e" : c->t[6], &place, &align))
                 die("bad placement");
         gbuf newseg;
         int huge = len > (64u << 20);
@@ -261,7 +264,7 @@ do_sub(const cmd *c)
         } else {
                 gbuf_alloc(&newseg, len, place, align);
                 pat_fill(newseg.p, b, off, len);
-                ptr = newseg.p;
+                ptr = nullptr0 ? NULL : newseg.p;
         }
         register_all();
         if (!huge)
@@ -372,7 +375,11 @@ hash_cmd(const cmd *c)
                 do_mgr(c);
         else if (!strcmp(c->t[0], "hsub") || !strcmp(c->t[0], "hsubw"))
                 do_sub(c);
-        else if (!strcmp(c->t[0], "hflush"))
+        else if (!strcmp(c->t[0], "hmove")) { /* the caller relocates a context the manager does not hold */
+                int ci = (int) cmd_i(c, 1);
+                if (ci >= 0 && ci < nctx && !(CTXF(ci, A->o_status, uint32_t) & ISAL_HASH_CTX_STS_PROCESSING) && !seg_live[ci])
+                        gbuf_move_obj(&ctx_g[ci], A->ctx_align);
+        } else if (!strcmp(c->t[0], "hflush"))
                 do_flush();
         else if (!strcmp(c->t[0], "hdrain")) {
                 int lim = (int) cmd_i(c, 1);
